@@ -82,25 +82,71 @@ fn check(ptr: *mut u8, size: usize) {
     let _ = BUSY.try_with(|b| b.set(false));
 }
 
+// Byte-aligned allocations (Box<[u8; N]>, Vec<u8>, String) are handed out at ODD addresses, as a
+// bump allocator on a bare-metal guest may do: one extra byte in front of every align-1 block.
+// Code under test that silently assumes more alignment than it asked for then fails here too.
+// (Applied unconditionally and consistently: alloc, dealloc and realloc agree by layout alone.)
+#[inline]
+fn shifted(layout: &Layout) -> Option<Layout> {
+    if layout.align() == 1 && layout.size() > 0 {
+        Layout::from_size_align(layout.size() + 1, 1).ok()
+    } else {
+        None
+    }
+}
+
 unsafe impl GlobalAlloc for Guard {
     unsafe fn alloc(&self, layout: Layout) -> *mut u8 {
         if injected_failure(&layout) {
             return std::ptr::null_mut();
         }
-        unsafe { System.alloc(layout) }
+        match shifted(&layout) {
+            Some(l) => {
+                let p = unsafe { System.alloc(l) };
+                if p.is_null() {
+                    p
+                } else {
+                    unsafe { p.add(1) }
+                }
+            }
+            None => unsafe { System.alloc(layout) },
+        }
     }
     unsafe fn alloc_zeroed(&self, layout: Layout) -> *mut u8 {
         if injected_failure(&layout) {
             return std::ptr::null_mut();
         }
-        unsafe { System.alloc_zeroed(layout) }
+        match shifted(&layout) {
+            Some(l) => {
+                let p = unsafe { System.alloc_zeroed(l) };
+                if p.is_null() {
+                    p
+                } else {
+                    unsafe { p.add(1) }
+                }
+            }
+            None => unsafe { System.alloc_zeroed(layout) },
+        }
     }
     unsafe fn dealloc(&self, ptr: *mut u8, layout: Layout) {
         check(ptr, layout.size());
-        unsafe { System.dealloc(ptr, layout) }
+        match shifted(&layout) {
+            Some(l) => unsafe { System.dealloc(ptr.sub(1), l) },
+            None => unsafe { System.dealloc(ptr, layout) },
+        }
     }
     unsafe fn realloc(&self, ptr: *mut u8, layout: Layout, new_size: usize) -> *mut u8 {
         check(ptr, layout.size());
-        unsafe { System.realloc(ptr, layout, new_size) }
+        match shifted(&layout) {
+            Some(l) => {
+                let p = unsafe { System.realloc(ptr.sub(1), l, new_size + 1) };
+                if p.is_null() {
+                    p
+                } else {
+                    unsafe { p.add(1) }
+                }
+            }
+            None => unsafe { System.realloc(ptr, layout, new_size) },
+        }
     }
 }
